@@ -209,7 +209,7 @@ def _jsonable(x):
 
 
 def write_replay(prop, viol, tier, seed):
-    d = os.path.join(VERIF_DIR, 'replays', prop)
+    d = os.path.join(os.environ.get('BBV_REPLAY_DIR') or os.path.join(VERIF_DIR, 'replays'), prop)
     os.makedirs(d, exist_ok=True)
     body = _jsonable({'property': prop, 'what': viol['what'], 'case': viol['case'],
                       'detail': viol['detail'], 'tier': tier, 'seed': seed, 'repo': repo_dir()})
@@ -270,7 +270,7 @@ def conclude(mod, out, tier, seed, t0, extra_cov=None, exhaustive=False):
         'wall_s': round(time.time() - t0, 3), 'violations': len(real) if real else 0,
         'verdict': verdict,
     }
-    evdir = os.path.join(VERIF_DIR, 'evidence')
+    evdir = os.environ.get('BBV_EVIDENCE_DIR') or os.path.join(VERIF_DIR, 'evidence')   # mutation self-tests redirect this
     os.makedirs(evdir, exist_ok=True)
     tmp = os.path.join(evdir, prop + '.json.tmp')
     with open(tmp, 'w') as f:
